@@ -1,11 +1,17 @@
-\* the property holds when full validation guards the vote; every explored transition is exported
+\* quick: the property holds when full validation guards the vote - every block class of up to two violated clauses on four equal validators, and previous commits exactly on the two-thirds boundary for validator sets in every residue class of the total power mod 3; every explored transition is exported
 SPECIFICATION Spec
 CONSTANTS
   Guard = "AsRequired"
-  Classes <- Quick
+  Cmp = "id"
+  Setups <- SetsQuick
+  Blocks <- BlocksQuick
+  Seconds <- NoSeconds
   MaxRound = 1
   MaxRestarts = 2
   Sched = "fixed"
+  ByzVotes = "support"
+  Loss = "none"
+  Serve = "prefix"
 INVARIANTS TypeOK VotesOnlyFullyValid PersistOnlyApplicable NoWedge
 ACTION_CONSTRAINT Edge
 VIEW View
